@@ -434,29 +434,49 @@ def plan(ctx):
     groups += bmp_misc_groups(ctx, src, dim)
     # P7 (PAM) header loop: terminates on every stream and rejects an end of file inside the header (stubs/C06_p7.h)
     up7 = Unit(ctx, 'p7_header')
+    # the header commands / tuple types the model of the line contents knows (stubs/C06_p7.h); any other literal is an unknown one
+    P7_LITS = {'WIDTH ': 'K_WIDTH', 'HEIGHT ': 'K_HEIGHT', 'DEPTH ': 'K_DEPTH', 'MAXVAL ': 'K_MAXVAL', 'TUPLTYPE ': 'K_TUPLTYPE', 'ENDHDR': 'K_ENDHDR',
+               'GRAYSCALE': 'T_GRAYSCALE', 'GRAYSCALE_ALPHA': 'T_GRAYSCALE_ALPHA', 'RGB': 'T_RGB', 'RGB_ALPHA': 'T_RGB_ALPHA'}
     up7.raw('#include "contracts/C06_p7.h"\n')
     lit = lambda mo: str(len(bytes(mo.group(1), 'utf-8').decode('unicode_escape')))
     up7.block(src, 'src/Image.cc', r'void Image::load\(FILE\* f\)', r'if \(is_extended_ppm\)',
               new_header='void Image_load_p7_header(C6FILE* f, size_t* new_width_p, size_t* new_height_p, uint64_t* new_max_value_p, size_t* new_depth_p, C6Format* format_p)',
               ret_zero='', nloops=1,
-              loops={1: '__CPROVER_assigns(verif_exc, g_rem, new_width, new_height, new_max_value, new_depth, format)\n'
-                        '__CPROVER_loop_invariant(verif_exc == 0)\n'
+              loops={1: '__CPROVER_assigns(@LOCALS@, verif_exc, g_rem, g_hw, g_hh, g_hmax, g_hdepth, g_htup, g_hdepth_seen, g_hwell, g_hend)\n'
+                        '__CPROVER_loop_invariant(verif_exc == 0 && !g_hend)\n'
+                        '__CPROVER_loop_invariant(new_width == g_hw && new_height == g_hh && new_max_value == g_hmax && P7_TUPLE_INV(format, new_depth))\n'
                         '__CPROVER_decreases(g_rem)'},
               rules=[Rule(r'\bfgetc\(f\)', 'c6_fgetc(f)', count=None, regex=True),
                      Rule(r'string line = fgets\(f\);', 'cline line; c6_fgets(&line, f);', count=1, regex=True),
                      Rule(r'strip_trailing_whitespace\(line\);', 'c6_strip_trailing_whitespace(&line);', count=None, regex=True),
-                     Rule(r'starts_with\((\w+), "([^"]*)"\)', lambda mo: 'c6_starts_with(&%s, %d)' % (mo.group(1), len(mo.group(2))), count='+', regex=True),
+                     Rule(r'starts_with\((\w+), "([^"]*)"\)', lambda mo: 'c6_starts_with(&%s, %d, %s)' % (mo.group(1), len(mo.group(2)), P7_LITS.get(mo.group(2), 'K_UNKNOWN_LIT')), count='+', regex=True),
                      Rule(r'stoull\((\w+)\.substr\((\d+)\)\)', r'c6_stoull_sub(&\1, \2)', count=None, regex=True),
                      Rule(r'(c6_stoull_sub\([^;]*\);)', r'\1 if (verif_exc) return;', count=None, regex=True),
                      Rule(r'string (\w+) = (\w+)\.substr\((\d+)\);', r'cline \1; c6_substr(&\1, &\2, \3);', count=None, regex=True),
-                     Rule(r'\b(\w+) == "([^"]*)"', lambda mo: 'c6_equals(&%s, %d)' % (mo.group(1), len(mo.group(2))), count='+', regex=True),
+                     Rule(r'\b(\w+) == "([^"]*)"', lambda mo: 'c6_equals(&%s, %d, %s)' % (mo.group(1), len(mo.group(2)), P7_LITS.get(mo.group(2), 'K_UNKNOWN_LIT')), count='+', regex=True),
                      Rule(r'\b(\w+)\.empty\(\)', r'(\1.len == 0)', count=None, regex=True),
                      Rule(r'\b(line|tuple_type)\[([^\]]+)\]', r'c6_at(&\1, \2)', count=None, regex=True),
                      Rule(r'Format::(\w+)', r'Format_\1', count=None, regex=True)],
               )
     # parameters by reference -> locals copied in/out (the block reads and writes the enclosing function's locals)
     txt = up7.parts[-1]
+    # any OTHER scalar local of the enclosing function that the block uses (an edit may add one): declared before the block with a constant
+    # initialiser and not assigned in between -> re-declared in the cut with that initialiser (mechanical; anything else stays a free name
+    # and the cut does not compile, which is reported as undecided)
+    ftext = src.text('src/Image.cc')
+    _, fbody, _, _ = lex.find_def(ftext, r'void Image::load\(FILE\* f\)', 'function')
+    mblk = re.search(r'if \(is_extended_ppm\)', lex.mask(fbody))
+    before = fbody[:mblk.start()] if mblk else ''
+    extra = ''
+    for mo in re.finditer(r'\b(size_t|uint64_t|uint32_t|uint16_t|uint8_t|int64_t|int32_t|int|unsigned|bool|ssize_t)\s+(\w+)\s*=\s*([-\w]+);', before):
+        ty, nm, init = mo.groups()
+        if nm in ('new_width', 'new_height', 'new_max_value', 'new_depth') or not re.search(r'\b%s\b' % nm, txt):
+            continue
+        if re.search(r'\b%s\s*(?:[-+*/|&^]|<<|>>)?=[^=]|\+\+\s*%s\b|\b%s\s*\+\+|&\s*%s\b' % (nm, nm, nm, nm), before[mo.end():]):
+            continue        # assigned (or its address taken) between its declaration and the block: its value at block entry is not the initialiser
+        extra += ' %s %s = %s;' % (ty, nm, init)
     i = txt.index('{')
+    txt = txt[:i + 1] + extra + txt[i + 1:]
     txt = (txt[:i + 1] + ' size_t new_width = *new_width_p, new_height = *new_height_p, new_depth = *new_depth_p; uint64_t new_max_value = *new_max_value_p; '
            'C6Format format = *format_p;\n#define P7_OUT { *new_width_p = new_width; *new_height_p = new_height; *new_depth_p = new_depth; *new_max_value_p = new_max_value; *format_p = format; }\n'
            + txt[i + 1:])
@@ -467,9 +487,11 @@ def plan(ctx):
     up7.write()
     ctx.functions_under_contract += up7.functions
     groups.append(Group(name='Image.load.p7_header', harness='harness/C06/p7.c', entry='h_p7_header', function='Image::load (P7 header loop)',
-                        enforce='Image_load_p7_header', replace=['c6_fgets', 'c6_fgetc', 'c6_strip_trailing_whitespace', 'c6_starts_with', 'c6_equals', 'c6_substr', 'c6_stoull', 'c6_at'],
+                        enforce='Image_load_p7_header', replace=['c6_fgetc', 'c6_strip_trailing_whitespace', 'c6_starts_with', 'c6_equals', 'c6_substr', 'c6_stoull', 'c6_at'],
                         loops=True, kind='loop-contract', object_bits=12,
-                        clause_note='contracts/C06_p7.h: the header loop terminates for every stream (variant: bytes left) and an end of file inside the header is an exception'))
+                        min_post=6, replay=Replay(mode='p7_header', **RP),
+                        clause_note='contracts/C06_p7.h: the header loop terminates for every stream (variant: bytes left), an end of file inside the header is an exception, '
+                                    'a well-formed header is accepted and yields the width/height/maxval it says, gray/colour and alpha from the tuple type'))
     # PNG chunk framing + CRC chain (PNG spec 5.3; zlib crc32 by its documented contract, stubs/C06_png.h)
     upc = Unit(ctx, 'png_chunk')
     upc.raw('#include "contracts/C06_png.h"\n')
